@@ -236,50 +236,88 @@ pub open spec fn ge(k: VKey) -> KCmp { KCmp { op: Op::Ge, k } }
 pub open spec fn lt(k: VKey) -> KCmp { KCmp { op: Op::Lt, k } }
 pub open spec fn eqc(k: VKey) -> KCmp { KCmp { op: Op::Eq, k } }
 
-/// view of a parsed partial version: None = wildcard / missing
+pub open spec fn gt(k: VKey) -> KCmp { KCmp { op: Op::Gt, k } }
+pub open spec fn le(k: VKey) -> KCmp { KCmp { op: Op::Le, k } }
+/// node-semver isX(): a component that is missing or a wildcard.  A wildcard minor makes the patch a wildcard too.
+pub open spec fn xM(p: Partial) -> bool { p.major is None }
+pub open spec fn xm(p: Partial) -> bool { xM(p) || p.minor is None }
+pub open spec fn xp(p: Partial) -> bool { xm(p) || p.patch is None }
+pub open spec fn pM(p: Partial) -> int { p.major->0 as int }
+pub open spec fn pm(p: Partial) -> int { p.minor->0 as int }
+pub open spec fn pp(p: Partial) -> int { p.patch->0 as int }
+pub open spec fn any_set() -> Seq<KCmp> { s1(ge(k3(0, 0, 0))) }           // README: `*` := `>=0.0.0`
+pub open spec fn null_set() -> Seq<KCmp> { s1(lt(k4(0, 0, 0, pre0()))) }  // range.js: `<0.0.0-0`
+
+/// README "Caret Ranges", range.js replaceCaret
+pub open spec fn npm_caret(p: Partial) -> Seq<KCmp> {
+    let pre = p.pre_release@;
+    if xM(p) { any_set() }
+    else if xm(p) { s2(ge(k3(pM(p), 0, 0)), lt(k4(pM(p) + 1, 0, 0, pre0()))) }
+    else if xp(p) { if pM(p) == 0 { s2(ge(k3(0, pm(p), 0)), lt(k4(0, pm(p) + 1, 0, pre0()))) } else { s2(ge(k3(pM(p), pm(p), 0)), lt(k4(pM(p) + 1, 0, 0, pre0()))) } }
+    else if pM(p) == 0 && pm(p) == 0 { s2(ge(k4(0, 0, pp(p), pre)), lt(k4(0, 0, pp(p) + 1, pre0()))) }
+    else if pM(p) == 0 { s2(ge(k4(0, pm(p), pp(p), pre)), lt(k4(0, pm(p) + 1, 0, pre0()))) }
+    else { s2(ge(k4(pM(p), pm(p), pp(p), pre)), lt(k4(pM(p) + 1, 0, 0, pre0()))) }
+}
+/// README "Tilde Ranges", range.js replaceTilde (`~>` is the same as `~`)
+pub open spec fn npm_tilde(p: Partial) -> Seq<KCmp> {
+    let pre = p.pre_release@;
+    if xM(p) { any_set() }
+    else if xm(p) { s2(ge(k3(pM(p), 0, 0)), lt(k4(pM(p) + 1, 0, 0, pre0()))) }
+    else if xp(p) { s2(ge(k3(pM(p), pm(p), 0)), lt(k4(pM(p), pm(p) + 1, 0, pre0()))) }
+    else { s2(ge(k4(pM(p), pm(p), pp(p), pre)), lt(k4(pM(p), pm(p) + 1, 0, pre0()))) }
+}
+/// README "X-Ranges", range.js replaceXRange without operator
+pub open spec fn npm_plain(p: Partial) -> Seq<KCmp> {
+    let pre = p.pre_release@;
+    if xM(p) { any_set() }
+    else if xm(p) { s2(ge(k3(pM(p), 0, 0)), lt(k4(pM(p) + 1, 0, 0, pre0()))) }
+    else if xp(p) { s2(ge(k3(pM(p), pm(p), 0)), lt(k4(pM(p), pm(p) + 1, 0, pre0()))) }
+    else { s1(eqc(k4(pM(p), pm(p), pp(p), pre))) }
+}
+/// range.js replaceXRange with an operator
+pub open spec fn npm_primitive(op: Operation, p: Partial) -> Seq<KCmp> {
+    let pre = p.pre_release@;
+    if xM(p) { match op { Operation::GreaterThan | Operation::LessThan => null_set(), _ => any_set() } }
+    else if xm(p) { match op {
+        Operation::GreaterThan => s1(ge(k3(pM(p) + 1, 0, 0))),
+        Operation::GreaterThanEquals => s1(ge(k3(pM(p), 0, 0))),
+        Operation::LessThan => s1(lt(k4(pM(p), 0, 0, pre0()))),
+        Operation::LessThanEquals => s1(lt(k4(pM(p) + 1, 0, 0, pre0()))),
+        Operation::Exact => s2(ge(k3(pM(p), 0, 0)), lt(k4(pM(p) + 1, 0, 0, pre0()))),
+    } }
+    else if xp(p) { match op {
+        Operation::GreaterThan => s1(ge(k3(pM(p), pm(p) + 1, 0))),
+        Operation::GreaterThanEquals => s1(ge(k3(pM(p), pm(p), 0))),
+        Operation::LessThan => s1(lt(k4(pM(p), pm(p), 0, pre0()))),
+        Operation::LessThanEquals => s1(lt(k4(pM(p), pm(p) + 1, 0, pre0()))),
+        Operation::Exact => s2(ge(k3(pM(p), pm(p), 0)), lt(k4(pM(p), pm(p) + 1, 0, pre0()))),
+    } }
+    else { let k = k4(pM(p), pm(p), pp(p), pre); match op {
+        Operation::GreaterThan => s1(gt(k)), Operation::GreaterThanEquals => s1(ge(k)), Operation::LessThan => s1(lt(k)), Operation::LessThanEquals => s1(le(k)), Operation::Exact => s1(eqc(k)),
+    } }
+}
+/// README "Hyphen Ranges", range.js hyphenReplace: lower part / upper part (None = no comparator on that side)
+pub open spec fn npm_hyphen_from(p: Partial) -> Option<KCmp> {
+    if xM(p) { None } else if xm(p) { Some(ge(k3(pM(p), 0, 0))) } else if xp(p) { Some(ge(k3(pM(p), pm(p), 0))) } else { Some(ge(k4(pM(p), pm(p), pp(p), p.pre_release@))) }
+}
+pub open spec fn npm_hyphen_to(p: Partial) -> Option<KCmp> {
+    if xM(p) { None } else if xm(p) { Some(lt(k4(pM(p) + 1, 0, 0, pre0()))) } else if xp(p) { Some(lt(k4(pM(p), pm(p) + 1, 0, pre0()))) } else { Some(le(k4(pM(p), pm(p), pp(p), p.pre_release@))) }
+}
+pub open spec fn npm_hyphen(f: Partial, t: Partial) -> Seq<KCmp> {
+    match (npm_hyphen_from(f), npm_hyphen_to(t)) {
+        (Some(a), Some(b)) => s2(a, b), (Some(a), None) => s1(a), (None, Some(b)) => s1(b), (None, None) => Seq::empty(),
+    }
+}
 pub open spec fn wf_partial(p: Partial) -> bool {
     (p.major matches Some(x) ==> x <= MAX_SAFE_INTEGER) && (p.minor matches Some(x) ==> x <= MAX_SAFE_INTEGER) && (p.patch matches Some(x) ==> x <= MAX_SAFE_INTEGER)
-    && (p.patch is None ==> p.pre_release@.len() == 0)
-}
-/// npm: caret ranges (README "Caret Ranges", range.js replaceCaret).  None = comparator is not valid
-pub open spec fn npm_caret(p: Partial) -> Option<Seq<KCmp>> {
-    let pre = p.pre_release@;
-    match (p.major, p.minor, p.patch) {
-        (None, _, _) => Some(Seq::empty()),                                                  // ^* == *
-        (Some(M), None, _) => Some(s2(ge(k3(M as int, 0, 0)), lt(k4(M + 1, 0, 0, pre0())))),
-        (Some(M), Some(m), None) => if M == 0 { Some(s2(ge(k3(0, m as int, 0)), lt(k4(0, m + 1, 0, pre0())))) }
-                                    else { Some(s2(ge(k3(M as int, m as int, 0)), lt(k4(M + 1, 0, 0, pre0())))) },
-        (Some(M), Some(m), Some(pt)) =>
-            if M == 0 && m == 0 { Some(s2(ge(k4(0, 0, pt as int, pre)), lt(k4(0, 0, pt + 1, pre0())))) }
-            else if M == 0 { Some(s2(ge(k4(0, m as int, pt as int, pre)), lt(k4(0, m + 1, 0, pre0())))) }
-            else { Some(s2(ge(k4(M as int, m as int, pt as int, pre)), lt(k4(M + 1, 0, 0, pre0())))) },
-    }
-}
-/// npm: X-ranges / plain partials (README "X-Ranges", range.js replaceXRange with no operator; full version == exact)
-pub open spec fn npm_plain(p: Partial) -> Option<Seq<KCmp>> {
-    let pre = p.pre_release@;
-    match (p.major, p.minor, p.patch) {
-        (None, _, _) => Some(Seq::empty()),
-        (Some(M), None, _) => Some(s2(ge(k3(M as int, 0, 0)), lt(k4(M + 1, 0, 0, pre0())))),
-        (Some(M), Some(m), None) => Some(s2(ge(k3(M as int, m as int, 0)), lt(k4(M as int, m + 1, 0, pre0())))),
-        (Some(M), Some(m), Some(pt)) => Some(s1(eqc(k4(M as int, m as int, pt as int, pre)))),
-    }
 }
 pub open spec fn lower_cut(cs: Seq<KCmp>) -> Cut { if cs.len() == 0 { Cut::NegInf } else { match cs[0].op { Op::Ge => Cut::At(cs[0].k, false), Op::Gt => Cut::At(cs[0].k, true), Op::Eq => Cut::At(cs[0].k, false), _ => Cut::NegInf } } }
 pub open spec fn upper_cut(cs: Seq<KCmp>) -> Cut { if cs.len() == 0 { Cut::PosInf } else { let c = cs[cs.len() - 1]; match c.op { Op::Le => Cut::At(c.k, true), Op::Lt => Cut::At(c.k, false), Op::Eq => Cut::At(c.k, true), _ => Cut::PosInf } } }
-pub open spec fn shape_ok(r: Option<BoundSet>, spec: Option<Seq<KCmp>>) -> bool {
-    match (r, spec) {
-        (Some(bs), Some(cs)) => bs_wf(bs) && cut_of(*bs.lower) == lower_cut(cs) && cut_of(*bs.upper) == upper_cut(cs),
-        (None, None) => true,
-        _ => false,
-    }
-}
-pub open spec fn desugar_ok(r: Option<BoundSet>, spec: Option<Seq<KCmp>>) -> bool {
-    match (r, spec) {
-        (Some(bs), Some(cs)) => bs_wf(bs) && repr(bs, cs),
-        (None, None) => true,
-        // an interval that no version can enter may be dropped
-        (None, Some(cs)) => forall|v: VKey| wfk(v) ==> !set_ok(cs, v),
-        (Some(_), None) => false,
+/// the interval the code built has exactly the two cuts of npm's comparator list
+pub open spec fn shape_ok(r: Option<BoundSet>, cs: Seq<KCmp>) -> bool {
+    match r {
+        Some(bs) => bs_wf(bs) && cut_of(*bs.lower) == lower_cut(cs) && cut_of(*bs.upper) == upper_cut(cs),
+        // an interval nothing can enter is dropped
+        None => cut_cmp(lower_cut(cs), upper_cut(cs)) != Ordering::Less,
     }
 }
